@@ -191,7 +191,9 @@ def adjusts_count(st, var):
     for n in ast.walk(st):
         if isinstance(n, (ast.Assign, ast.AugAssign)):
             tg = n.targets if isinstance(n, ast.Assign) else [n.target]
-            if any(dotted(t) == var + '.count' for t in tg): return True
+            flat = []
+            for t in tg: flat += list(t.elts) if isinstance(t, (ast.Tuple, ast.List)) else [t]
+            if any(dotted(t) == var + '.count' for t in flat): return True
     return False
 
 
